@@ -69,6 +69,19 @@ inline std::vector<SC> &vec(std::vector<SC> &v) { return v; }
 inline const std::vector<SC> &vec(const std::vector<SC> &v) { return v; }
 #endif
 
+// every violation goes through cfail(): vf::fail plus, when C01_KEYLOG names a file, one appended line "sub<TAB>key"
+// (uncapped, written by whichever process observed it) from which the known-finding key lists are generated.
+#include <fcntl.h>
+#include <unistd.h>
+static void cfail(const std::string &sub, const std::string &key, const std::string &detail) {
+    vf::fail(sub, key, detail);
+    static const char *path = getenv("C01_KEYLOG");
+    if (path && !vf::replaying()) {
+        int fd = ::open(path, O_WRONLY | O_APPEND | O_CREAT, 0644);
+        if (fd >= 0) { std::string line = sub + "\t" + key + "\n"; if (::write(fd, line.data(), line.size()) < 0) {} ::close(fd); }
+    }
+}
+
 // ---------------------------------------------------------------------------------------------
 struct SolverCfg {
     std::string name, type; int side;   // 0 left, 1 right, 2 none
@@ -193,7 +206,7 @@ typedef typename sg::ld_of<SC>::type LSC;
 typedef Eigen::Matrix<LSC, Eigen::Dynamic, Eigen::Dynamic> LMat;
 typedef Eigen::Matrix<LSC, Eigen::Dynamic, 1> LVec;
 static int bicg_reference(const Eigen::Matrix<SC, Eigen::Dynamic, Eigen::Dynamic> &A, const Eigen::Matrix<SC, Eigen::Dynamic, Eigen::Dynamic> &B,
-                          const std::vector<SC> &f, const std::vector<SC> &x0, int side, ld &g) {
+                          const std::vector<SC> &f, const std::vector<SC> &x0, int side, ld &g, ld *mincos = nullptr) {
     int n = (int)A.rows();
     LMat Al = A.template cast<LSC>(), Bl = B.template cast<LSC>();
     LVec fl(n), xl(n); for (int i = 0; i < n; ++i) { fl(i) = (LSC)f[i]; xl(i) = (LSC)x0[i]; }
@@ -201,12 +214,13 @@ static int bicg_reference(const Eigen::Matrix<SC, Eigen::Dynamic, Eigen::Dynamic
     LMat Op = side == 0 ? LMat(Bl * Al) : LMat(Al * Bl);
     LVec c = side == 0 ? LVec(Bl * r0) : r0;
     LMat OpH = Op.adjoint();
-    LVec r = c, rt = c, p = c, pt = c; g = 1; ld c0 = r.norm();
-    auto rc = [](ld na, ld nb, ld q) { return q > 0 ? std::max((ld)1, na * nb / q) : (ld)INFINITY; };
+    LVec r = c, rt = c, p = c, pt = c; g = 1; ld c0 = r.norm(); ld mc = 1;
+    auto rc = [&](ld na, ld nb, ld q) { ld cs = (na > 0 && nb > 0) ? q / (na * nb) : 0; mc = std::min(mc, cs); return q > 0 ? std::max((ld)1, na * nb / q) : (ld)INFINITY; };
+    struct Fin { ld *out; ld &mc; ~Fin() { if (out) *out = mc; } } fin{mincos, mc};
     for (int k = 0; k <= n; ++k) {
         if (r.norm() <= 1e-10L * c0) return k;
         if (k == n) break;
-        if (rt.norm() <= 1e-10L * c0) return -1;
+        if (rt.norm() <= 1e-10L * c0) { mc = 0; return -1; }
         LSC rho = rt.dot(r);                         // Eigen: conjugate-linear in the first argument = rt^H r
         g *= rc(rt.norm(), r.norm(), std::abs(rho));
         LVec q = Op * p; LSC sigma = pt.dot(q);
@@ -217,7 +231,55 @@ static int bicg_reference(const Eigen::Matrix<SC, Eigen::Dynamic, Eigen::Dynamic
         LSC beta = rt.dot(r) / rho;
         p = r + beta * p; pt = rt + sg::conjv_ld(beta) * pt;
     }
-    return -1;
+    return -2;                                       // no breakdown, but not converged within n steps
+}
+// true when the exact-arithmetic (long double) BiCG process on this (A, B, f, x0, side) breaks down, or comes within
+// 1e3 u of it: some rho_j / sigma_j has |cos| <= 1e3 u, or the shadow sequence ends before the residual does.
+static bool bicg_near_breakdown(const Eigen::Matrix<SC, Eigen::Dynamic, Eigen::Dynamic> &A, const Eigen::Matrix<SC, Eigen::Dynamic, Eigen::Dynamic> &B,
+                                const std::vector<SC> &f, const std::vector<SC> &x0, int side) {
+    ld g = 1, mc = 1; int kb = bicg_reference(A, B, f, x0, side, g, &mc);
+    return kb == -1 || mc <= 1e3L * (ld)U;
+}
+
+// Long-double re-run of the BiCGStab(L) recurrence exactly as amgcl/solver/bicgstabl.hpp forms it (convex / L==1 branch,
+// tol 1e-8): returns the smallest relative size met for the three quantities the recurrence divides by:
+//   |rho1| / (||R[j]|| ||Rt||),   |sigma| / (||U[j+1]|| ||Rt||),   |omega| ||R[L]|| / ||R[0]||   (omega = leading MR coefficient).
+// 0 means an exact breakdown.  Used only to NAME a violation (near-breakdown or not), never to excuse one.
+static ld bicgstabl_rerun_mincos(const Eigen::Matrix<SC, Eigen::Dynamic, Eigen::Dynamic> &A, const Eigen::Matrix<SC, Eigen::Dynamic, Eigen::Dynamic> &B,
+                                 const std::vector<SC> &f, const std::vector<SC> &x0, int side, int L, int maxiter) {
+    int n = (int)A.rows(); if (L < 1) L = 1; if (maxiter < 0) maxiter = 100;
+    LMat Al = A.template cast<LSC>(), Bl = B.template cast<LSC>();
+    LVec fl(n), xl(n); for (int i = 0; i < n; ++i) { fl(i) = (LSC)f[i]; xl(i) = (LSC)x0[i]; }
+    LMat Op = side == 0 ? LMat(Bl * Al) : LMat(Al * Bl);
+    LVec b0 = fl - Al * xl; if (side == 0) b0 = Bl * b0;
+    std::vector<LVec> R(L + 1, LVec::Zero(n)), Uv(L + 1, LVec::Zero(n));
+    R[0] = b0; LVec Rt = b0; ld nRt = Rt.norm(); if (!(nRt > 0)) return 1;
+    LSC alpha = 0, rho0 = 1, omega = 1; ld zeta = nRt, eps = 1e-8L * fl.norm(), mc = 1;
+    auto track = [&](ld q, ld na, ld nb) { ld c = (na > 0 && nb > 0) ? q / (na * nb) : 0; if (!(c >= 0)) c = 0; mc = std::min(mc, c); };
+    for (int iter = 0; iter < maxiter && zeta >= eps && mc > 0; iter += L) {
+        rho0 = -omega * rho0;
+        for (int j = 0; j < L; ++j) {
+            LSC rho1 = Rt.dot(R[j]); track(std::abs(rho1), R[j].norm(), nRt); if (!(mc > 0)) return 0;
+            LSC beta = alpha * (rho1 / rho0); rho0 = rho1;
+            for (int i = 0; i <= j; ++i) Uv[i] = R[i] - beta * Uv[i];
+            Uv[j + 1] = Op * Uv[j];
+            LSC sigma = Rt.dot(Uv[j + 1]); track(std::abs(sigma), Uv[j + 1].norm(), nRt); if (!(mc > 0)) return 0;
+            alpha = rho1 / sigma;
+            for (int i = 0; i <= j; ++i) R[i] -= alpha * Uv[i + 1];
+            R[j + 1] = Op * R[j];
+            zeta = R[0].norm();
+            if (zeta < eps) return mc;
+        }
+        LMat M(n, L); for (int i = 1; i <= L; ++i) M.col(i - 1) = R[i];
+        LVec y = M.colPivHouseholderQr().solve(R[0]);
+        omega = y(L - 1);
+        track(std::abs(omega) * R[L].norm(), R[0].norm(), 1); if (!(mc > 0)) return 0;
+        for (int i = 1; i <= L; ++i) { Uv[0] -= y(i - 1) * Uv[i]; }
+        LVec r0 = R[0]; for (int i = 1; i <= L; ++i) r0 -= y(i - 1) * R[i]; R[0] = r0;
+        zeta = R[0].norm();
+        if (!std::isfinite((double)zeta)) return 0;
+    }
+    return mc;
 }
 
 struct Probe {                 // what one solve is compared against
@@ -272,8 +334,41 @@ static void isolated(const std::string &group_prefix, Fn fn) {
         if (k != std::string::npos) { size_t e = err.find('\n', k); key = err.substr(k + 5, e == std::string::npos ? std::string::npos : e - k - 5); }
         ++vf::S().evals;
         size_t cut = err.rfind("CASE "); std::string tail = cut == std::string::npos ? err : err.substr(err.find('\n', cut) == std::string::npos ? cut : err.find('\n', cut) + 1);
-        vf::fail("crash", key, vf::KS() << "child process died (" << r.kind_name() << " " << r.code << ") while running this case; stderr: " << tail.substr(0, 300));
+        cfail("crash", key, vf::KS() << "child process died (" << r.kind_name() << " " << r.code << ") while running this case; stderr: " << tail.substr(0, 300));
     }
+}
+
+// ---------------------------------------------------------------------------------------------
+// Naming of a truthfulness violation.  Two characterised groups get their own sub-check name, everything else stays
+// "truthful.<solver>":
+//  * bicgstab / bicgstabl: the long-double BiCG process for exactly this (A, B, f, x0, side) breaks down or comes within
+//    1e3 u of a breakdown  ->  truthful.near_breakdown.<solver>   (amgcl tests rho/sigma/omega for exact zero only)
+//  * idrs: the same solve with solver.replacement=true (true residual recomputed once per cycle) is truthful within the
+//    bound  ->  truthful.recursive_residual_gap.idrs              (gap of the recursively updated residual)
+static bool idrs_truthful_with_replacement(const SysInfo &si, const PrecondCfg &pc, SolverCfg sc, int maxiter, const std::vector<SC> &f, const std::vector<SC> &x0) {
+    sc.p.put("replacement", true);
+    Built b = build(si, pc, sc, maxiter);
+    if (b.o.threw) return false;
+    std::vector<SC> x = x0; Outcome o = solve(*b.S, f, x);
+    if (o.threw || !std::isfinite(o.resid)) return false;
+    ld fn = sg::norm2_ld(f); ld truth = sg::true_residual(si.S->A, f, x) / fn;
+    ld bound = 32 * (ld)U * (o.iters + 2) * sqrtl((ld)si.n) * si.sv.kappa * (1 + (ld)si.sv.smax * std::max(sg::norm2_ld(x0), sg::norm2_ld(x)) / fn) + 1e-12L * o.resid;
+    return fabsl((ld)o.resid - truth) <= bound;
+}
+static std::string truthful_subcheck(const SysInfo &si, const PrecondCfg &pc, const SolverCfg &sc, int maxiter, const std::vector<SC> &f, const std::vector<SC> &x0,
+                                     const Eigen::Matrix<SC, Eigen::Dynamic, Eigen::Dynamic> *B, double reported, ld truth) {
+    if ((sc.type == "bicgstab" || sc.type == "bicgstabl") && B && si.n <= 64) {
+        int side = sc.side == 0 ? 0 : 1;
+        if (bicg_near_breakdown(si.D, *B, f, x0, side)) return "truthful.near_breakdown." + sc.type;
+        ld mc = bicgstabl_rerun_mincos(si.D, *B, f, x0, side, sc.type == "bicgstabl" ? sc.L : 1, maxiter);
+        if (mc <= 1e3L * (ld)U) return "truthful.near_breakdown." + sc.type;
+        // not within rounding of a breakdown, but some quotient of the recurrence (power basis A^j r, leading MR coefficient)
+        // is formed from operands that cancel to below sqrt(u): at least half of the digits are lost there
+        if (mc <= sqrtl((ld)U)) return "truthful.illconditioned_recurrence." + sc.type;
+    }
+    if (sc.type == "idrs" && (idrs_truthful_with_replacement(si, pc, sc, maxiter, f, x0) || (reported < 1e-9 && truth < 1e-9L)))
+        return "truthful.recursive_residual_gap.idrs";       // gap closes with residual replacement, or both values are < tol/10
+    return "truthful." + sc.type;
 }
 
 // ---------------------------------------------------------------------------------------------
@@ -292,7 +387,7 @@ static void run_case(const SysInfo &si, const PrecondCfg &pc, const SolverCfg &s
                 if (b.o.unsupported) { vf::count("unsupported_config"); return; }
                 // a constructor exception is not a returned (iters, residual); it violates only the convergence clause
                 // (every coarsening x relaxation x solver works on SPD M-matrix diffusion problems)
-                if (Sy.spd_mmatrix && pc.cls == 0) vf::fail("converges.setup_exception", key, "constructor threw: " + b.o.what + " :: " + pc.name + " :: " + sysdescr(si));
+                if (Sy.spd_mmatrix && pc.cls == 0) cfail("converges.setup_exception", key, "constructor threw: " + b.o.what + " :: " + pc.name + " :: " + sysdescr(si));
                 else vf::count("setup_exception_outside_convergence_clause");
                 return;
             }
@@ -306,11 +401,11 @@ static void run_case(const SysInfo &si, const PrecondCfg &pc, const SolverCfg &s
         std::string where = vf::KS() << sc.name << " | " << pc.name << " | " << pr.tag << " maxiter=" << pr.maxiter << " :: " << sysdescr(si);
         if (o.threw) {
             if (o.breakdown) { vf::count("breakdown_exception." + sc.type); vf::count("breakdown_exception_by_probe." + sc.type + " " + pr.tag + (pr.maxiter == 0 ? " maxiter=0" : "")); continue; }
-            vf::fail("solve.exception." + sc.type, key, "threw: " + o.what + " :: " + where); continue;
+            cfail("solve.exception." + sc.type, key, "threw: " + o.what + " :: " + where); continue;
         }
         // (b) iteration budget
         size_t lim = pr.maxiter + (sc.type == "bicgstabl" ? sc.L - 1 : 0);
-        if (o.iters > lim) vf::fail("iters." + sc.type, key, vf::KS() << "iters=" << o.iters << " > " << lim << " :: " << where);
+        if (o.iters > lim) cfail("iters." + sc.type, key, vf::KS() << "iters=" << o.iters << " > " << lim << " :: " << where);
         if (o.iters >= 2) nontrivial = true;
         // true residual of the returned x, from the user's arrays, on the side the solver reports
         ld fn = sg::norm2_ld(pr.f), x0n = sg::norm2_ld(pr.x0), xn = sg::norm2_ld(x);
@@ -339,7 +434,7 @@ static void run_case(const SysInfo &si, const PrecondCfg &pc, const SolverCfg &s
                     ld g = 1; int kb = bicg_reference(si.D, B, pr.f, pr.x0, sc.side, g);
                     if (kb < 0 || !(64 * (ld)U * n * si.sv.kappa * sb.kappa * g <= 1e-9L)) { skip = true; vf::count("converges_skipped_bicg_reference_breakdown." + sc.type); }
                 }
-                if (!skip) vf::fail(csub, key, vf::KS() << "default tolerance not reached: iters=" << o.iters << " reported=" << o.resid << " true=" << (double)truth << " :: " << where);
+                if (!skip) cfail(csub, key, vf::KS() << "default tolerance not reached: iters=" << o.iters << " reported=" << o.resid << " true=" << (double)truth << " :: " << where);
             }
         }
         // (a) truthfulness
@@ -347,7 +442,7 @@ static void run_case(const SysInfo &si, const PrecondCfg &pc, const SolverCfg &s
         if (!std::isfinite(o.resid) && (double)(truth_unprec * fn) > 1e150) { vf::count("diverged_overflow." + sc.type); continue; }
         if (!(std::isfinite((double)truth) && std::isfinite(o.resid) && std::isfinite((double)xn))) {
             if (!std::isfinite(o.resid) && !std::isfinite((double)truth)) { vf::count("nonfinite_reported_and_true." + sc.type); continue; }
-            vf::fail("truthful." + sc.type, key, vf::KS() << "reported=" << o.resid << " true=" << (double)truth << " (non-finite on one side only) iters=" << o.iters << " :: " << where);
+            cfail("truthful." + sc.type, key, vf::KS() << "reported=" << o.resid << " true=" << (double)truth << " (non-finite on one side only) iters=" << o.iters << " :: " << where);
             continue;
         }
         if (si.sv.kappa > 1e4) { vf::count("truthful_skipped_kappa_gt_1e4"); continue; }
@@ -362,10 +457,11 @@ static void run_case(const SysInfo &si, const PrecondCfg &pc, const SolverCfg &s
         }
         bound += 1e-12L * o.resid;
         ld diff = fabsl((ld)o.resid - truth);
-        if (!(diff <= bound))
-            vf::fail("truthful." + sc.type, key, vf::KS() << "reported=" << o.resid << " true=" << (double)truth << " |diff|=" << (double)diff << " > bound=" << (double)bound << " iters=" << o.iters << " :: " << where);
-        else if (o.resid < 1e-8 && !(truth <= 1e-8L * (1 + 1e-6L) + bound))
-            vf::fail("truthful.tol." + sc.type, key, vf::KS() << "reported=" << o.resid << " < tol but true=" << (double)truth << " bound=" << (double)bound << " :: " << where);
+        if (!(diff <= bound)) {
+            if ((sc.type == "bicgstab" || sc.type == "bicgstabl") && !triedB) { triedB = true; haveB = extract_B(S, n, B); if (haveB) sb = sg::svd_info_dense(B); }
+            cfail(truthful_subcheck(si, pc, sc, pr.maxiter, pr.f, pr.x0, haveB ? &B : nullptr, o.resid, truth), key, vf::KS() << "reported=" << o.resid << " true=" << (double)truth << " |diff|=" << (double)diff << " > bound=" << (double)bound << " iters=" << o.iters << " :: " << where);
+        } else if (o.resid < 1e-8 && !(truth <= 1e-8L * (1 + 1e-6L) + bound))
+            cfail("truthful.tol." + sc.type, key, vf::KS() << "reported=" << o.resid << " < tol but true=" << (double)truth << " bound=" << (double)bound << " :: " << where);
         vf::count("truthful_checked." + sc.type);
         if (o.resid > 1e-6 && o.iters > 0) vf::count("truthful_checked_early_stop." + sc.type);
         { ld q = diff / bound; vf::count(q <= 1e-4L ? "margin.diff_over_bound_le_1e-4" : q <= 1e-2L ? "margin.diff_over_bound_le_1e-2" : "margin.diff_over_bound_le_1"); }
@@ -385,7 +481,7 @@ static void run_case(const SysInfo &si, const PrecondCfg &pc, const SolverCfg &s
                 ld rk = sg::norm2_ld(rl);
                 ld lim2 = sqrtl((ld)si.sv.kappa) * powl((ld)rhoE * (1 + 1e-10L), (ld)o.iters) * r0 * (1 + 1e-8L) + bound * fn;
                 if (r0 > 0 && !(rk <= lim2))
-                    vf::fail("richardson.rate", key, vf::KS() << "||r_k||=" << (double)rk << " > sqrt(kappa) rho^k ||r_0|| = " << (double)lim2 << " (rho(I-BA)=" << rhoE << ", k=" << o.iters << ") :: " << where);
+                    cfail("richardson.rate", key, vf::KS() << "||r_k||=" << (double)rk << " > sqrt(kappa) rho^k ||r_0|| = " << (double)lim2 << " (rho(I-BA)=" << rhoE << ", k=" << o.iters << ") :: " << where);
                 vf::count("richardson_rate_checked");
             } else vf::count(haveB && !Bsym ? "richardson_rate_skipped_B_not_symmetric" : "richardson_rate_skipped_rho_ge_1");
         }
@@ -463,7 +559,7 @@ static void scaling_section(const std::vector<System> &systems, const std::vecto
             if (!vf::take([&] { return key; })) continue;
             for (int maxiter : {3, 100}) {
                 Built b = build(si, pc, sc, maxiter);
-                if (b.o.threw) { if (b.o.unsupported) vf::count("unsupported_config"); else vf::fail("setup.exception", key, b.o.what); break; }
+                if (b.o.threw) { if (b.o.unsupported) vf::count("unsupported_config"); else cfail("setup.exception", key, b.o.what); break; }
                 for (int g : {sg::X0_ZERO, sg::X0_RAMP}) {
                     auto f = sg::rhs(sg::RHS_A_RAMP, S.A); if (g == sg::X0_ZERO) f = sg::rhs(sg::RHS_ALT, S.A);
                     auto x0 = sg::guess(g, S.A, f);
@@ -473,13 +569,13 @@ static void scaling_section(const std::vector<System> &systems, const std::vecto
                         std::vector<SC> fs = f, xs = x0; for (auto &e : fs) e *= s; for (auto &e : xs) e *= s;
                         Outcome os = solve(*b.S, fs, xs); vf::count("solves");
                         std::string where = vf::KS() << sc.name << " | " << pc.name << " | scale 2^" << k << " x0=" << sg::x0_name(g) << " maxiter=" << maxiter << " :: " << sysdescr(si);
-                        if (o.threw != os.threw) { vf::fail("scaling." + sc.type, key, "exception in one run only (" + o.what + os.what + ") :: " + where); continue; }
+                        if (o.threw != os.threw) { cfail("scaling." + sc.type, key, "exception in one run only (" + o.what + os.what + ") :: " + where); continue; }
                         if (o.threw) { vf::count("breakdown_exception." + sc.type); continue; }
                         if (!std::isfinite(o.resid) || !std::isfinite(os.resid)) { vf::count("scaling_skipped_nonfinite"); continue; }      // overflow is an absolute threshold
                         bool same = o.iters == os.iters && std::memcmp(&o.resid, &os.resid, sizeof(double)) == 0;
                         size_t bad = 0; for (size_t i = 0; i < x.size(); ++i) { SC e = x[i] * s; if (std::memcmp(&e, &xs[i], sizeof(SC)) != 0 && !(e == xs[i])) ++bad; }
                         if (!same || bad)
-                            vf::fail("scaling." + sc.type, key, vf::KS() << "(iters,resid) " << o.iters << "," << o.resid << " -> " << os.iters << "," << os.resid << "; " << bad << " of " << x.size() << " solution entries not scaled exactly :: " << where);
+                            cfail("scaling." + sc.type, key, vf::KS() << "(iters,resid) " << o.iters << "," << o.resid << " -> " << os.iters << "," << os.resid << "; " << bad << " of " << x.size() << " solution entries not scaled exactly :: " << where);
                         vf::count("scaling_checked");
                         if (o.iters >= 2) vf::nontrivial(vf::hstr(key));
                     }
@@ -496,7 +592,7 @@ static void tiny_section(const System &S, const std::vector<PrecondCfg> &pcs, co
         std::string key = vf::KS() << SEC << "|tiny|" << S.name << "|" << pc.name << "|" << sc.name;
         if (!vf::take([&] { return key; })) continue;
         Built b = build(si, pc, sc, 100);
-        if (b.o.threw) { if (b.o.unsupported) vf::count("unsupported_config"); else vf::fail("setup.exception", key, b.o.what); continue; }
+        if (b.o.threw) { if (b.o.unsupported) vf::count("unsupported_config"); else cfail("setup.exception", key, b.o.what); continue; }
         for (int k : {-40, -60}) {
             auto f = sg::rhs(sg::RHS_ONES, S.A); for (auto &e : f) e *= std::ldexp(1.0, k);
             std::vector<SC> x(si.n, SC());
@@ -508,7 +604,7 @@ static void tiny_section(const System &S, const std::vector<PrecondCfg> &pcs, co
             bool nz = false; for (auto &e : x) if (e != SC()) nz = true;
             vf::count(nz ? "tiny_rhs_solved" : "tiny_rhs_returned_zero_solution");
             if (!(fabsl((ld)o.resid - truth) <= bound))
-                vf::fail("truthful.tiny_rhs." + sc.type, key, vf::KS() << "f = 2^" << k << " * ones (||f||=" << (double)fn << "): returned iters=" << o.iters << " reported=" << o.resid << " x " << (nz ? "!=" : "==") << " 0, true relative residual " << (double)truth
+                cfail("truthful.tiny_rhs." + sc.type, key, vf::KS() << "f = 2^" << k << " * ones (||f||=" << (double)fn << "): returned iters=" << o.iters << " reported=" << o.resid << " x " << (nz ? "!=" : "==") << " 0, true relative residual " << (double)truth
                          << " bound=" << (double)bound << " :: " << sc.name << " | " << pc.name << " :: " << sysdescr(si));
             vf::nontrivial(vf::hstr(key));
         }
@@ -543,16 +639,18 @@ static void breakdown_section(bool thorough) {
             si.S = &S;
             std::vector<SC> f = sg::pattern_rhs<SC>(n, rk), x = sg::pattern_x0<SC>(n, x0k), x0 = x;
             Built b = build(si, pc, sc, -1);
-            if (b.o.threw) { vf::fail("setup.exception", key, b.o.what); continue; }
+            if (b.o.threw) { cfail("setup.exception", key, b.o.what); continue; }
             Outcome o = solve(*b.S, f, x); vf::count("solves");
-            if (o.threw) { if (o.breakdown) vf::count("breakdown_exception." + sc.type); else vf::fail("solve.exception." + sc.type, key, o.what); continue; }
+            if (o.threw) { if (o.breakdown) vf::count("breakdown_exception." + sc.type); else cfail("solve.exception." + sc.type, key, o.what); continue; }
             ld fn = sg::norm2_ld(f); ld truth = sg::true_residual(S.A, f, x) / fn;
             if (!std::isfinite(o.resid) && !std::isfinite((double)truth)) { vf::count("nonfinite_reported_and_true." + sc.type); vf::count("brk_nonfinite_result_without_exception." + sc.type); continue; }
             ld bound = 32 * (ld)U * (o.iters + 2) * sqrtl((ld)n) * si.sv.kappa * (1 + (ld)si.sv.smax * std::max(sg::norm2_ld(x0), sg::norm2_ld(x)) / fn) + 1e-12L * o.resid;
             ld diff = fabsl((ld)o.resid - truth);
-            if (!(diff <= bound))
-                vf::fail("truthful." + sc.type, key, vf::KS() << "reported=" << o.resid << " true=" << (double)truth << " |diff|=" << (double)diff << " > bound=" << (double)bound << " iters=" << o.iters << " (no exception raised) :: " << sc.name
+            if (!(diff <= bound)) {
+                Eigen::Matrix<SC, Eigen::Dynamic, Eigen::Dynamic> I = Eigen::Matrix<SC, Eigen::Dynamic, Eigen::Dynamic>::Identity(n, n);
+                cfail(truthful_subcheck(si, pc, sc, -1, f, x0, &I, o.resid, truth), key, vf::KS() << "reported=" << o.resid << " true=" << (double)truth << " |diff|=" << (double)diff << " > bound=" << (double)bound << " iters=" << o.iters << " (no exception raised) :: " << sc.name
                          << " | dummy | A=" << sg::show(S.A) << " f=" << sg::showv(f) << " x0=" << sg::showv(x0) << " kappa2=" << si.sv.kappa);
+            }
             vf::count("brk_truthful_checked." + sc.type);
             if (o.iters >= 2) vf::nontrivial(vf::hstr(key));
         }
